@@ -34,7 +34,8 @@ def draw_case(data, tier):
 def run_case(case):
     d, opts = case["d"], case["opts"]
     mode = layergen.BIAS_MODES[case["bias"]]
-    labels = [f"d{d}", "G_" + case["G"], f"M{case['M']}", f"bias_{mode}"] + convgen.option_labels(opts, d)
+    labels = ["channels_equal" if len({c for _, c in case["in_sig"]}) == 1 and len({c for _, c in case["out_sig"]}) == 1 and len(case["out_sig"]) > 1 else "channels_mixed",
+              f"d{d}", "G_" + case["G"], f"M{case['M']}", f"bias_{mode}"] + convgen.option_labels(opts, d)
     key = [d, case["G"], case["M"], case["in_sig"], case["out_sig"], case["bias"], opts]
     bank = layergen.the_bank(case)
     for t, v in bank.items():
